@@ -1,6 +1,7 @@
 """Lock-step execution of the real code (Go harness) and the Lean model over a line protocol."""
 import os
 import select
+import tempfile
 import subprocess
 import time
 
@@ -11,9 +12,26 @@ class Proc:
     def __init__(self, argv, name, env=None):
         self.name = name
         self.argv = argv
+        # stderr goes to an anonymous temp file: when the process dies its panic message names the crash
+        self.errf = tempfile.TemporaryFile(mode="w+b")
         self.p = subprocess.Popen(argv, stdin=subprocess.PIPE, stdout=subprocess.PIPE,
-                                  stderr=subprocess.DEVNULL, text=True, bufsize=1, env=env)
+                                  stderr=self.errf, text=True, bufsize=1, env=env)
         self.dead = False
+
+    def death_note(self):
+        """'dead' plus the first panic / fatal line the process wrote, if any"""
+        try:
+            self.p.wait(timeout=5)
+        except Exception:
+            pass
+        try:
+            self.errf.seek(0)
+            for line in self.errf.read().decode("utf-8", "replace").splitlines():
+                if line.startswith("panic:") or line.startswith("fatal error:"):
+                    return "dead " + line.strip()[:200].replace(" ", "_")
+        except Exception:
+            pass
+        return "dead"
 
     def ask(self, line):
         if self.dead:
@@ -30,7 +48,7 @@ class Proc:
             r = ""
         if r == "":
             self.dead = True
-            return "dead"
+            return self.death_note()
         return r.rstrip("\n")
 
     def close(self):
@@ -51,10 +69,10 @@ class Pair:
     """impl + model.  `ask(op)` sends op to the implementation, forwards the nondeterministic choice it
     reports (` order=...`, ` pick=...`) to the model as extra arguments, and returns both replies."""
 
-    CHOICE_KEYS = ("order=", "pick=", "sample=", "part=", "owned=")
+    CHOICE_KEYS = ("order=", "pick=", "sample=", "part=", "owned=", "in=")
     # white-box listings the model does not mirror (they feed the property oracle only)
     IMPL_ONLY = ("wb.keys", "wb.frags", "c.scanall", "c.commands", "c.rawcmd", "c.sync", "c.add", "c.stop", "c.update",
-                 "c.balance", "bg.compact", "bg.janitor", "wb.stats", "wb.mergex", "c.lockrace", "c.atomrace", "c.incrf", "c.atomxf", "c.getf")
+                 "c.balance", "bg.compact", "bg.janitor", "wb.stats", "wb.mergex", "c.lockrace", "c.atomrace", "c.incrf", "c.atomxf", "c.getf", "rt.dump", "rt.client", "c.converge", "c.rejoin", "c.balanceall", "r.put", "c.kill")
 
     def __init__(self, drv, model, env=None):
         self.drv_path, self.model_path, self.env = drv, model, env
@@ -102,7 +120,7 @@ def replay(drv, model, ops, oracle_factory=None, stop_at_first=True, env=None):
         for i, op in enumerate(ops):
             ri, rm = pair.ask(op)
             out.ops += 1
-            if ri.startswith("panic") or ri in ("hang", "dead", "spin"):
+            if ri.startswith("panic") or ri.startswith("dead") or ri in ("hang", "spin"):
                 out.crashes.append((i, op, ri))
                 if stop_at_first:
                     break
